@@ -122,6 +122,9 @@ func (r *MultiplyReceiver) EmptyMultiplySendRound1Message() *MultiplySendRound1M
 
 // Round1 runs the Sender's first round in the multiplication protocol.
 func (r *MultiplySender) Round1(msg *MultiplyReceiveRound1Message) (*MultiplySendRound1Message, curve.Scalar, error) {
+	if msg == nil {
+		return nil, nil, errors.New("multiply send round 1: missing message")
+	}
 	additiveMsg, result, err := r.sender.Round1(msg.Msg)
 	if err != nil {
 		return nil, nil, err
@@ -205,6 +208,14 @@ func (r *MultiplyReceiver) Round1() *MultiplyReceiveRound1Message {
 
 // Round2 runs the second round for the Receiver in the multiplication protocol.
 func (r *MultiplyReceiver) Round2(msg *MultiplySendRound1Message) (curve.Scalar, error) {
+	if msg == nil || msg.Msg == nil || msg.UCheck == nil || len(msg.RCheck) != len(r.gadget) {
+		return nil, errors.New("multiply receive round 2: malformed message")
+	}
+	for _, check := range msg.RCheck {
+		if check == nil {
+			return nil, errors.New("multiply receive round 2: malformed message")
+		}
+	}
 	result, err := r.receiver.Round2(msg.Msg)
 	if err != nil {
 		return nil, err
